@@ -33,7 +33,7 @@ def h64(obj):
                                           digest_size=8).digest(), 'big')
 
 
-class Hang(Exception):
+class Hang(BaseException):
     pass
 
 
